@@ -3,6 +3,6 @@
 set -e
 cd "$(dirname "$0")"
 python3 tools/mk_driver.py
-/venv/bin/python harness/gen_tables.py /repo
+/venv/bin/python harness/gen_tables.py "${RIG_REPO:-/repo}"
 cd lean
 lake build RigModel driver 2>&1 | tail -3
